@@ -82,6 +82,11 @@ claim('C19', 'complete enumeration per shipped code of all Pauli errors below th
       'error sets for all n<=6, d<=4 (asymmetric n<=5, six Z-weights) are compared as sets with brute-force filters.',
       'trusted: vf apply_pauli (axis flips and sign masks); the listed strings are taken from the AST of the source (comparison skipped if the pattern disappears)')
 
+claim('C05', 'Hypothesis separable states by construction (11 dimension tuples, structured and random product vectors, degenerate weights, analytic families) pushed through every criterion in generated call sequences; oracle: verdict must be "passes", closed-form measures finite and zero',
+      'Each generated separable state is judged by is_ppt, is_generalized_ppt (+ every realignment norm), reduction and swap witnesses, negativity, PPT boundary, the two-qubit closed forms and (SDP sub-check) '
+      'is_ABk_symmetric_ext over k, PPT and bosonic flags, single and batched, in sequences that change dims / flags between calls (memoised data).',
+      'trusted: separable states are separable by construction (vf/ref.py); SDP verdicts as returned by the solver; thorough tier extends SDP sizes to (3,3), k=3')
+
 NOT_YET = 'check not built yet in this session (work in progress; see DESIGN.md section 4 for the planned generator and oracle)'
 
 ALL = [f'C{i:02d}' for i in range(1, 21)]
